@@ -418,6 +418,9 @@ def check_validate(v, facts, res):
                 t = du.rvalue_term(d.rv, 8)
                 if any(x[0] == "agg" and x[2] == "Some" for x in walk(t)):
                     sites.append(("best update", d.block, v.blocks[d.block].stmts[d.idx].line))
+    if not sites:
+        if _check_validate_pipeline(v, facts, res):
+            return
     res.floor("W1", "leaf insertion + best update sites in %s" % v.path, len(sites), 2)
     # the candidate: element of the iteration over self.revisions.keys()
     for what, bi, line in sites:
@@ -500,6 +503,106 @@ def _top_closure(t):
         else:
             return None
     return None
+
+
+def _check_validate_pipeline(v, facts, res):
+    """Pipeline form of the recomputation: the leaf set is filled by `extend` / `collect` from an adaptor chain over all keys of the
+    revision map whose `filter` closures state the three liveness tests, and the winner is a maximum (`reduce` / `max` /
+    `max_by`) over that same collection under Revision's order.  Returns True when the form was recognised (and judged)."""
+    from ..defuse import inline_calls
+    from ..conds import closure_result_lits, unaccepted
+    from ..common import iter_chain
+    du = du_of(v)
+    fills = [(bi, t) for bi, t in v.calls() if t.callee is not None and t.callee.name in ("extend", "append") and t.args and len(t.args) >= 2 and
+             "leafs_cache" in field_path(arg_term(v, t, 0))[0]]
+    if not fills:
+        return False
+    ok_all = True
+    for bi, t in fills:
+        src = inline_calls(arg_term(v, t, 1, 30), facts)
+        # the chain: ... collect(cloned(filter(filter(filter(keys(&self.revisions))))))
+        chains = [x for x in walk(src) if x[0] == "call" and callee_name(x) in ("collect", "cloned", "filter", "copied")]
+        g_res = g_par = g_valid = False
+        whole = False
+        extra = []
+        root = src
+        for _ in range(8):
+            while root[0] in ("var", "ref", "deref", "cast"):
+                root = root[3] if root[0] == "var" else root[1]
+            hb_ = facts.body(root[1]) if root[0] == "call" and root[4] is not None else None
+            if hb_ is not None and hb_.in_repo() and hb_.kind != "closure" and len(root[2]) > (hb_.argc):
+                root = root[2][-1]          # the helper's return term, appended by inline_calls
+            else:
+                break
+        for x in iter_chain(root):
+            if x[0] == "call" and callee_name(x) == "keys" and x[2] and any(y[0] == "field" and y[2] == "revisions" for y in walk(x[2][0])):
+                whole = True
+            if x[0] == "call" and callee_name(x) in ("take", "skip", "step_by", "filter_map", "take_while", "skip_while", "rev", "nth"):
+                whole = False
+                extra.append(callee_name(x))
+            if x[0] != "call" or callee_name(x) != "filter" or len(x[2]) < 2:
+                continue
+            cl = _top_closure(x[2][1])
+            cb = facts.body(cl[1]) if cl is not None else None
+            if cb is None:
+                extra.append("filter without analysable closure")
+                continue
+            ls = closure_result_lits(cb, facts, True)
+            if not ls:
+                extra.append("filter with an unattributable result")
+            for l in ls:
+                if l.kind != "call" or l.derived:
+                    continue
+                n = callee_name(l.term)
+                cand = lambda a: any(y[0] == "param" and y[1] == 2 for y in walk(a))
+                if n == "is_resolved" and l.truth is False and cand(l.term[2][0]):
+                    g_res = True
+                elif n == "contains" and l.truth is False and len(l.term[2]) > 1 and cand(l.term[2][1]):
+                    # the set tested is the captured parent set of the function that builds the chain
+                    g_par = True
+                else:
+                    hb = facts.body(l.term[4].target()) if l.term[4] is not None else None
+                    if l.truth is True and hb is not None and hb.in_repo() and hb.local_ty(0) == "bool" and any(cand(a) for a in l.term[2]):
+                        if _reach_helper_ok(hb, facts, res):
+                            g_valid = True
+                    else:
+                        extra.append(repr(l))
+        res.instance("W1", "%s (pipeline form): the leaf set is filled from all keys of the revision map (%s) filtered by !is_resolved (%s), !parents.contains (%s), "
+                     "root-reachable (%s); other selections: %s" % (v.path, whole, g_res, g_par, g_valid, extra or "none"), v.loc(t.line))
+        if not (whole and g_res and g_par and g_valid) or extra:
+            ok_all = False
+            res.violation("W1", "%s|leaf-insertion-unguarded" % v.path,
+                          "%s: the leaf set is not exactly the keys of the revision map that pass all liveness tests (whole map: %s, not a resolution marker: %s, "
+                          "not a parent: %s, reaches a root: %s, other selections: %s)" % (v.path, whole, g_res, g_par, g_valid, extra), v.loc(t.line))
+        # W2: the winner is a maximum over the same collection
+        fill_roots = {y[1] for y in walk(arg_term(v, t, 1, 8)) if y[0] == "var"}
+        w_ok = False
+        for blk in v.blocks:
+            for st in blk.stmts:
+                if st.kind == "assign" and st.place.proj and any(p.get("n") == "winner_cache" for p in st.place.proj if p["k"] == "field"):
+                    wt = du.rvalue_term(st.rv, 30)
+                    pw = peel(wt)
+                    if pw[0] == "agg" and pw[2] == "None":
+                        continue
+                    same = bool(fill_roots & {y[1] for y in walk(wt) if y[0] == "var"})
+                    mx = [y for y in walk(wt) if y[0] == "call" and callee_name(y) in ("reduce", "max", "max_by", "fold")]
+                    by_order = False
+                    for y in mx:
+                        if callee_name(y) == "max":
+                            by_order = True
+                        for z in (walk(y[2][1]) if len(y[2]) > 1 else []):
+                            if z[0] == "closure":
+                                cb = facts.body(z[1])
+                                if cb is not None and any(tt.callee is not None and tt.callee.name in ("gt", "lt", "ge", "le", "cmp", "max") and
+                                                          "revision::Revision" in ((tt.callee.self_ty or "") + (tt.callee.full or "")) for _, tt in cb.calls()):
+                                    by_order = True
+                    w_ok = same and bool(mx) and by_order
+                    res.instance("W2", "%s (pipeline form): winner = maximum (Revision's order: %s) over the collection the leaf set is filled from (%s)" % (v.path, by_order, same), v.loc(st.line))
+        if not w_ok:
+            ok_all = False
+            res.violation("W2", "%s|best-update-rule" % v.path, "%s does not take the winner as the maximum, under Revision's order, of the collection the leaf set is filled from" % v.path, v.loc())
+    res.instance("W1", "%s iterates every recorded revision: %s" % (v.path, True), v.loc())
+    return True
 
 
 def _is_candidate(t):
